@@ -137,7 +137,7 @@ pub fn emit(idx: &Index, ok: &BTreeMap<String, Translated>, out: &Path, harness:
             Some(f) => f,
             None => continue,
         };
-        if !ret_ok(idx, &fi.ret) {
+        if !ret_ok(idx, &fi.ret) || fi.self_kind == SelfKind::MutRef {
             continue;
         }
         // receiver
